@@ -8,6 +8,7 @@ CFG = '''CONSTANTS
   G = %(G)s
   Variant = "%(variant)s"
   Coarse = %(coarse)s
+  ReadGroups = %(groups)d
   DetPool = %(det)s
   Hist = %(hist)s
   NInputs = %(n)d
@@ -21,8 +22,8 @@ CHECK_DEADLOCK FALSE
 '''
 
 
-def cfg(ctx, G='{1, 2}', variant='ok', coarse=False, det=False, hist=False, n=12):
-    return CFG % dict(G=G, variant=variant, coarse=str(coarse).upper(), det=str(det).upper(), hist=str(hist).upper(), n=n,
+def cfg(ctx, G='{1, 2}', variant='ok', coarse=False, det=False, hist=False, n=12, groups=3):
+    return CFG % dict(G=G, variant=variant, coarse=str(coarse).upper(), det=str(det).upper(), hist=str(hist).upper(), n=n, groups=groups,
                       seed=ctx.seed, view='' if hist else 'VIEW NoHist', emit='EmitSchedule' if hist else '')
 
 
@@ -43,8 +44,8 @@ def pool_check(ctx):
         cov['samples'] += s['samples'][:2]
         nsched = s['info'].get('schedules', 0)
         if thorough:
-            r3 = ctx.tlc('MC_Pool', cfg(ctx, G='{1, 2, 3}', coarse=True, det=True, hist=True, n=3), name='MC_Pool_sched3', timeout=6000)
-            s3 = ctx.harness('sched', prop='C14', **{'in': r3['out']})
+            r3 = ctx.tlc('MC_Pool', cfg(ctx, G='{1, 2, 3}', coarse=True, det=True, hist=True, n=3, groups=1), name='MC_Pool_sched3', timeout=6000)
+            s3 = ctx.harness('sched', prop='C14', n=1, **{'in': r3['out']})
             viol += s3['violations']
             nsched += s3['info'].get('schedules', 0)
             cov['compared']['gate replay, 3 goroutines'] = dict(s3['compared'], schedules=s3['info'].get('schedules', 0))
